@@ -1,5 +1,6 @@
 import CoapVerif.Lemmas.OscorePlain
 import CoapVerif.Lemmas.OscoreSeq
+import CoapVerif.Lemmas.OscoreCtx
 /-
 C14 — OSCORE protection round-trips, matches RFC 8613, and tampering is detected by the tag.
 
@@ -594,6 +595,163 @@ theorem sequence_roundtrip (cipher : Bytes → Bytes → Bytes) (cC cS : Ctx) (h
     rw [htr, he]
     simp only [hv]
 
+/-! ### Several security contexts at the recipient of a request (D14.18; S: Spec/OscoreCtx.lean, M: Model/OscoreCtx.lean) -/
+
+/-- **M = S for the context lookup.**  libcoap's `oscore_find_context` (two nested loops with the mismatch counter `ok`,
+called by `coap_oscore_decrypt_pdu` with the request's kid and kid context — absent = empty) returns the position of the
+FIRST (context, recipient) pair of the store, in list / chain order, that the request names in the sense of D14.18 —
+for every store (any number of contexts, any recipient chains, ID Contexts present, empty or absent), every kid and kid
+context; and the Appendix B.2 call without a kid context returns the first pair with that Recipient ID. -/
+theorem find_context_eq_spec (cs : M.Oscore.CtxStore) (v : OptVal) (kid : Bytes) (hk : v.kid = some kid) :
+    M.Oscore.findContext cs kid (some (v.kidctx.getD [])) none =
+      ((positions cs).find? fun p => namesId v p.rid p.idctx).map (fun p => (p.i, p.j)) ∧
+    M.Oscore.findContext cs kid none none =
+      ((positions cs).find? fun p => decide (p.rid = kid)).map (fun p => (p.i, p.j)) := by
+  constructor
+  · unfold M.Oscore.findContext positions
+    apply findFrom_eq
+    intro p
+    rw [mismatch_zero_iff]
+    simp only [namesId, hk, Option.some.injEq, Bool.and_eq_true, decide_eq_true_eq]
+    constructor
+    · rintro ⟨h1, h2⟩; exact ⟨h1.symm, h2.symm⟩
+    · rintro ⟨h1, h2⟩; exact ⟨h1.symm, h2.symm⟩
+  · unfold M.Oscore.findContext positions
+    apply findFrom_eq
+    intro p
+    rw [mismatch_zero_iff_nokc]
+    simp
+
+/-- S's retrieval (§8.2 step 2) over the derived contexts of libcoap's store, listed in store order, picks the context
+of the very pair `find_context_eq_spec` says `oscore_find_context` returns (`mk p` = the context derived for the pair
+`p`: any function that keeps Recipient ID and ID Context). -/
+theorem select_ctx_eq_find_context (cs : M.Oscore.CtxStore) (v : OptVal) (mk : Pos → Ctx)
+    (hmk : ∀ p, (mk p).rid = p.rid ∧ (mk p).idctx = p.idctx) :
+    selectCtx ((positions cs).map mk) v = ((positions cs).find? fun p => namesId v p.rid p.idctx).map mk := by
+  unfold selectCtx
+  rw [List.find?_map]
+  have hf : (names v ∘ mk) = fun p => namesId v p.rid p.idctx := by
+    funext p; simp [names, (hmk p).1, (hmk p).2]
+  rw [hf]
+
+/-- **A context the request does not name is never selected** ("use of a different context"): what
+`oscore_find_context` returns is a recipient whose id IS the kid, in a context whose ID Context IS the kid context. -/
+theorem find_context_sound (cs : M.Oscore.CtxStore) (kid kc : Bytes) (i j : Nat)
+    (h : M.Oscore.findContext cs kid (some kc) none = some (i, j)) :
+    ∃ c, cs[i]? = some c ∧ c.rcps[j]? = some kid ∧ c.idctx.getD [] = kc := by
+  have he := (find_context_eq_spec cs ⟨[], some kc, some kid⟩ kid rfl).1
+  simp only [Option.getD_some] at he
+  rw [he] at h
+  cases hf : (positions cs).find? (fun p => namesId ⟨[], some kc, some kid⟩ p.rid p.idctx) with
+  | none => simp [hf] at h
+  | some p =>
+    simp only [hf, Option.map_some, Option.some.injEq, Prod.mk.injEq] at h
+    have hm := (mem_positions cs p).mp (List.mem_of_find?_eq_some hf)
+    have hp := List.find?_some hf
+    simp only [namesId, Option.some.injEq, Option.getD_some, Bool.and_eq_true, decide_eq_true_eq] at hp
+    obtain ⟨c, h1, h2, h3⟩ := hm
+    refine ⟨c, by rw [← h.1]; exact h1, by rw [← h.2, hp.1]; exact h3, by rw [← h2]; exact hp.2.symm⟩
+
+/-- … and a request that names no pair of the store finds nothing (libcoap answers 4.01 "Security context not found"
+and returns NULL: no handler runs). -/
+theorem find_context_none_iff (cs : M.Oscore.CtxStore) (kid kc : Bytes) :
+    M.Oscore.findContext cs kid (some kc) none = none ↔
+      ∀ p ∈ positions cs, ¬ (p.rid = kid ∧ p.idctx.getD [] = kc) := by
+  have he := (find_context_eq_spec cs ⟨[], some kc, some kid⟩ kid rfl).1
+  simp only [Option.getD_some] at he
+  rw [he, Option.map_eq_none_iff, List.find?_eq_none]
+  constructor
+  · intro h p hp hc
+    apply h p hp
+    simp [namesId, hc.1, hc.2]
+  · intro h p hp hc
+    apply h p hp
+    simp only [namesId, Option.some.injEq, Option.getD_some, Bool.and_eq_true, decide_eq_true_eq] at hc
+    exact ⟨hc.1.symm, hc.2.symm⟩
+
+/-- **Every held context is found by the requests that name it.**  On an unambiguous store (D14.18) — any number of
+contexts and recipients, equal Recipient IDs (also the empty one) under different ID Contexts, equal ID Contexts with
+different Recipient IDs — the lookup for (kid, kid context) returns exactly the pair (i, j) whose Recipient ID is the kid
+and whose ID Context is the kid context, wherever it is in the store and whatever was looked at before it.  (A
+transcription in which the mismatch counter is not reset for every recipient does not satisfy this: example below.) -/
+theorem find_context_complete (cs : M.Oscore.CtxStore) (hu : StoreUnambiguous cs) (kid kc : Bytes) (i j : Nat)
+    (c : M.Oscore.OscCtx) (hc : cs[i]? = some c) (hj : c.rcps[j]? = some kid) (hid : c.idctx.getD [] = kc) :
+    M.Oscore.findContext cs kid (some kc) none = some (i, j) := by
+  have he := (find_context_eq_spec cs ⟨[], some kc, some kid⟩ kid rfl).1
+  simp only [Option.getD_some] at he
+  rw [he]
+  have hmem : (⟨i, j, kid, c.idctx⟩ : Pos) ∈ positions cs := (mem_positions cs _).mpr ⟨c, hc, rfl, hj⟩
+  rw [find?_of_pairwise _ _ (positions cs) ⟨i, j, kid, c.idctx⟩ hu hmem (by simp [namesId, hid])]
+  · rfl
+  · intro x y hx hy hr
+    simp only [namesId, Option.some.injEq, Option.getD_some, Bool.and_eq_true, decide_eq_true_eq] at hx hy
+    exact hr ⟨hx.1.symm.trans hy.1, hy.2.symm ▸ hx.2.symm ▸ rfl⟩
+
+/-- On an unambiguous set of contexts, what the endpoint does with a request is what the one context the request names
+does with it: if `c ∈ cs` accepts the request, so does the endpoint, with the same result. -/
+theorem unprotect_any_eq (cipher : Bytes → Bytes → Bytes) (cs : List Ctx) (hu : Unambiguous cs) (c : Ctx) (hc : c ∈ cs)
+    (m x : Msg) (b : Binding) (h : unprotectRequest cipher c m = .ok x b) :
+    unprotectRequestAny cipher cs m = .ok x b := by
+  obtain ⟨ov, v, h1, h2, h3, h4⟩ := unprotectRequest_ok_names cipher c m x b h
+  unfold unprotectRequestAny
+  simp only [h1, h2, if_false, h3, selectCtx_of_unambiguous cs v c hu hc h4]
+  exact h
+
+/-- **Round trip with several contexts at the server**: for every unambiguous set of contexts the server holds (D14.18),
+every one of them `cR` and the matching sender context `cS`, every block cipher, encodable request and sequence number:
+the server recovers the original request from `protectRequest cS m seq`, with the binding of that request —
+wherever `cR` is in the set and whatever the other contexts are (same Recipient ID under another ID Context, …). -/
+theorem unprotect_protect_request_any (cipher : Bytes → Bytes → Bytes) (cS cR : Ctx) (cs : List Ctx)
+    (hu : Unambiguous cs) (hR : cR ∈ cs) (m : Msg) (seq : Nat)
+    (hm : Matching cS cR)
+    (hsorted : m.opts.Pairwise (fun a b => a.1 ≤ b.1))
+    (hcode : m.code < 256)
+    (hwire : ∀ o ∈ m.opts, o.1 ≤ 65535 ∧ o.2.length ≤ 65804)
+    (hopt : (optEncode ⟨pivBytes seq, cS.idctx, some cS.sid⟩).length ≤ 255) :
+    ∀ r, protectRequest cipher cS m seq = some r → unprotectRequestAny cipher cs r.1 = .ok m r.2 := by
+  intro r hr
+  exact unprotect_any_eq cipher cs hu cR hR r.1 m r.2
+    (unprotect_protect_request cipher cS cR m seq hm hsorted hcode hwire hopt r hr)
+
+/-- **Use of a different context**: a request is accepted by an endpoint only through a context it holds AND the request
+names, and then with that context's verdict (key, nonce, AAD) — so a request protected for a context the endpoint does
+not hold (other Recipient ID or other ID Context) is rejected before any key is tried; every block cipher, every
+datagram (no unambiguity needed). -/
+theorem request_for_unknown_context_rejected (cipher : Bytes → Bytes → Bytes) (cs : List Ctx) (m : Msg) :
+    (∀ x b, unprotectRequestAny cipher cs m = .ok x b →
+      ∃ c ∈ cs, ∃ ov v, oscoreValue m.opts = some ov ∧ optDecode ov = some v ∧ names v c = true ∧
+        unprotectRequest cipher c m = .ok x b) ∧
+    (∀ ov v, oscoreValue m.opts = some ov → optDecode ov = some v → (∀ c ∈ cs, names v c = false) →
+      unprotectRequestAny cipher cs m = .rej) := by
+  constructor
+  · intro x b h
+    unfold unprotectRequestAny at h
+    cases hov : oscoreValue m.opts with
+    | none => simp [hov] at h
+    | some ov =>
+      simp only [hov] at h
+      by_cases hp : m.payload = []
+      · simp [hp] at h
+      · simp only [hp, if_false] at h
+        cases hd : optDecode ov with
+        | none => simp [hd] at h
+        | some v =>
+          simp only [hd] at h
+          cases hs : selectCtx cs v with
+          | none => simp [hs] at h
+          | some c =>
+            simp only [hs] at h
+            obtain ⟨hmem, hn⟩ := selectCtx_some cs v c hs
+            exact ⟨c, hmem, ov, v, rfl, hd, hn, h⟩
+  · intro ov v hov hd hnone
+    unfold unprotectRequestAny
+    have hs : selectCtx cs v = none := by
+      unfold selectCtx
+      rw [List.find?_eq_none]
+      intro c hc; simp [hnone c hc]
+    simp only [hov, hd, hs]
+    by_cases hp : m.payload = [] <;> simp [hp]
+
 /-! ### Non-vacuity: concrete instances of the hypotheses -/
 
 example : (pivBytes 20).length ≤ 5 ∧ (pivBytes (2 ^ 40 - 2)).length ≤ 5 ∧ 2 ^ 40 - 2 ≤ maxSeq := by decide
@@ -700,6 +858,49 @@ example :
 /-- D14.16: Observe 0 registers, Observe 1 (cancellation) and no Observe do not -/
 example : isRegistration [(6, []), (11, [1])] = true ∧ isRegistration [(6, [0])] = true ∧ isRegistration [(6, [1])] = false ∧
     isRegistration [(11, [1])] = false := by decide
+
+
+/-! ### Non-vacuity of the context-lookup theorems -/
+
+/-- RFC 8613 C.6's client (empty Sender ID, ID Context 37cbf3210017a2d3) at a server that holds, before its context, one
+with the same empty Recipient ID under another ID Context, one without ID Context and one with two recipients: the store
+is unambiguous and the lookup returns the third context's only recipient; an unknown ID Context finds nothing. -/
+example :
+    let cs : M.Oscore.CtxStore :=
+      [⟨some [0xa1, 0xa2], [[]]⟩, ⟨none, [[]]⟩, ⟨some [0x37, 0xcb, 0xf3, 0x21, 0x00, 0x17, 0xa2, 0xd3], [[]]⟩,
+       ⟨some [0x37, 0xcb, 0xf3, 0x21, 0x00, 0x17, 0xa2, 0xd3], [[2], [1]]⟩]
+    (positions cs).length = 5 ∧
+    M.Oscore.findContext cs [] (some [0x37, 0xcb, 0xf3, 0x21, 0x00, 0x17, 0xa2, 0xd3]) none = some (2, 0) ∧
+    M.Oscore.findContext cs [1] (some [0x37, 0xcb, 0xf3, 0x21, 0x00, 0x17, 0xa2, 0xd3]) none = some (3, 1) ∧
+    M.Oscore.findContext cs [] (some []) none = some (1, 0) ∧
+    M.Oscore.findContext cs [] (some [0x37]) none = none ∧
+    M.Oscore.findContext cs [1] none none = some (3, 1) := by decide
+
+example : StoreUnambiguous [⟨some [0xa1, 0xa2], [[]]⟩, ⟨none, [[]]⟩, ⟨some [0x37], [[]]⟩, ⟨some [0x37], [[2], [1]]⟩] := by
+  unfold StoreUnambiguous; decide
+
+/-- the mismatch counter carried over from recipient to recipient (not reset): the same lookup fails — such a
+transcription does not satisfy `find_context_complete` -/
+example :
+    let walk : Nat → List (Bytes × Option Bytes) → Option Nat := fun ok0 l =>
+      (l.foldl (fun (st : Nat × Nat × Option Nat) (p : Bytes × Option Bytes) =>
+        match st.2.2 with
+        | some _ => st
+        | none =>
+          let ok := if p.1 ≠ [] then 0 else st.1     -- empty kid: `ok` keeps its old value
+          let ok' := ok + (if p.2.getD [] ≠ [0x37] then 1 else 0)
+          (ok', st.2.1 + 1, if ok' = 0 then some st.2.1 else none)) (ok0, 0, none)).2.2
+    walk 0 [([], some [0xa1]), ([], some [0x37])] = none ∧ walk 0 [([], some [0x37])] = some 0 := by decide
+
+/-- S: two derived contexts with the same (empty) Recipient ID under different ID Contexts are an unambiguous set, and the
+compressed COSE object of a request for the second names the second only -/
+example :
+    Unambiguous [⟨[1], [], some [0xa1], 10, [1], [2], [3]⟩, ⟨[1], [], some [0x37], 10, [4], [5], [6]⟩] ∧
+    selectCtx [⟨[1], [], some [0xa1], 10, [1], [2], [3]⟩, ⟨[1], [], some [0x37], 10, [4], [5], [6]⟩] ⟨[0x14], some [0x37], some []⟩ =
+      some ⟨[1], [], some [0x37], 10, [4], [5], [6]⟩ ∧
+    selectCtx [⟨[1], [], some [0xa1], 10, [1], [2], [3]⟩] ⟨[0x14], some [0x37], some []⟩ = none := by
+  refine ⟨?_, by decide, by decide⟩
+  unfold Unambiguous; decide
 
 
 /-- RFC 8613 C.1.1 `info` for the Common IV through M -/
